@@ -610,5 +610,6 @@ pub proof fn lemma_C07_nesting_is_transparent(t: TypeStructure, u: TypeStructure
     }
 }
 
+//@ AUTO-FREE-FNS
 } // verus!
 fn main() {}
